@@ -85,6 +85,7 @@ def run_case(case, rec, lowered=True):
 
     # fresh build of the same recipe through the iterative builder
     it_fn = None
+    b2 = None
     if lowered:
         old = C._RECURSION_THRESHOLD
         try:
@@ -144,9 +145,16 @@ def run_case(case, rec, lowered=True):
         want, t = R.ref_value(D, node, pt, params=newvals)
         if np.isfinite(want) and t.regular():
             x = B.point_array(V, pt)
-            for name in ("evaluate", "compile", "CompiledExpression"):
+            after = {"evaluate": lambda: e.evaluate(dict(pt)), "compile": lambda: routes["compile"](x),
+                     "CompiledExpression": lambda: routes["CompiledExpression"](x), "dict": lambda: routes["dict"](dict(pt))}
+            if it_fn is not None:
+                # the callable of the *other* build (iterative builder), compiled before the update: its own Parameter objects
+                for pn, nv in newvals.items():
+                    b2.params[pn].set(nv)
+                after["compile-iterative"] = lambda: it_fn(x)
+            for name in after:
                 try:
-                    got = _scalar(e.evaluate(dict(pt))) if name == "evaluate" else _scalar(routes[name](x))
+                    got = _scalar(after[name]())
                 except Exception as ex:
                     bad(name + "-after-set", "raises:" + type(ex).__name__, pt, ex=ex)
                     continue
